@@ -20,7 +20,7 @@ func init() {
 		Assumptions: []string{"time.Ticker / time.After fire on time"},
 		Rules: map[string]string{
 			"R1": "in every non-stop claim-clear unit: a `go` (tracked) whose target reaches the Watch call; the guards at the go statement are only run-liveness / already-running / nil-context literals",
-			"R2": "every time.NewTicker / time.After period inside the follower loop functions folds to <= 500 ms and one exists; the periodic check function reaches an acquisition round from the Get-error edge and from the empty-value edge, and is called under claim == false; no computed pause in the follower loop's functions; path exploration from every call of the check function (through the loop's single-call-site functions): at most one timer case / ticker tick is passed before the next check (claim==true and ctx.Done() edges end a path)",
+			"R2": "every time.NewTicker / time.After period inside the follower loop functions folds to <= 500 ms and one exists; the periodic check function reaches an acquisition round from the Get-error edge and from the empty-value edge, and is called under claim == false; no computed pause in the follower loop's functions; the ticker runs free (no (*time.Ticker).Stop / Reset inside a loop of those functions - a parked ticker is resumed only by whatever re-arms it); path exploration from every call of the check function (through the loop's single-call-site functions): at most one timer case / ticker tick is passed before the next check (claim==true and ctx.Done() edges end a path)",
 			"R3": "every Return of the follower loop's root function is guarded by ctx.Err() != nil or is the ctx.Done() case of a select",
 			"R4": "see C17-R1",
 			"R6": "for every go statement whose goroutine reaches Create (outside the follower loop itself): an atomic flag (other than the claim) tested or swapped among the conditions of the go statement is accepted only if a Store(false) of it is deferred first thing in, or reached on every path through, the started goroutine",
@@ -236,6 +236,39 @@ func checkC06(c *Ctx) {
 	}
 	if nPeriod == 0 {
 		c.viol("R2", "periodic fallback exists", firstInstr(root), "no constant-period ticker/timer paces the follower loop: a lost watch event leaves the vacancy unnoticed")
+	}
+	// the ticker that paces the existence check runs free for as long as the loop runs: a Stop or a
+	// Reset inside the loop (the deferred Stop at the loop function's exit is a Defer, not a call in
+	// the loop) makes the next tick depend on whatever re-arms it - a ticker parked "while leading" and
+	// resumed on the next watch event never ticks again after a demotion that no event follows, and a
+	// Reset on every event is starved by a leader whose refreshes arrive faster than the period
+	nParked := 0
+	for _, f := range sortedFns(loopFns) {
+		eachInstr(f, func(in ssa.Instruction) {
+			call, ok := isCallTo(valueOf(in), "(*time.Ticker).Stop", "(*time.Ticker).Reset")
+			if !ok || !reachesWatchOrLoop(m, f, root) {
+				return
+			}
+			if !inLoop(call.Block()) && len(m.callers[f]) > 0 && f != root {
+				// a helper: it counts when one of its call sites lies in a loop of the loop's functions
+				inL := false
+				for _, cs := range m.callers[f] {
+					if !cs.IsDef && loopFns[cs.Caller] && inLoop(cs.Instr.Block()) {
+						inL = true
+					}
+				}
+				if !inL {
+					return
+				}
+			} else if !inLoop(call.Block()) {
+				return
+			}
+			nParked++
+			c.viol("R2", "existence-check ticker runs free in "+shortFn(f), call, "the follower loop stops or re-arms its ticker inside the loop (%s): from then on the next existence check depends on the event that re-arms it, and a vacancy that no watch event announces (record expired, demotion for a local cause, lost delete event) is never noticed", call.Call.StaticCallee().Name())
+		})
+	}
+	if nParked == 0 {
+		c.ok("R2", "existence-check ticker runs free", firstInstr(root), "no (*time.Ticker).Stop / Reset inside a loop of the follower loop's functions (the deferred Stop at exit is not in the loop)")
 	}
 	// the channel the loop waits on for its ticks is always a live timer channel: a nil channel (a
 	// helper that hands out a ticker "only for a follower", sampled when the watch is set up) blocks
